@@ -29,6 +29,8 @@ def canon_doc(j):
         return Fraction(int(j))
     if isinstance(j, int):
         return Fraction(j)
+    if isinstance(j, Fraction):
+        return j
     if isinstance(j, float):
         if math.isnan(j) or math.isinf(j):
             return j
@@ -72,17 +74,22 @@ def _bagkey(x):
     return repr(v)
 
 
-def diff_doc(a, b, path="", tol=False):
-    """First difference between two canonical documents, or None."""
+def diff_doc(a, b, path="", tol=False, mode="tol"):
+    """First difference between two canonical documents, or None.
+    mode "tol": means/variances to 1e-9 (default); "strict": every number exactly; "shape": numbers ignored."""
+    if mode == "shape":
+        numlike = lambda x: isinstance(x, (Fraction, float)) or (isinstance(x, str) and x in ("nan", "inf", "-inf"))  # noqa: E731
+        if numlike(a) and numlike(b):
+            return None
     if isinstance(a, (Fraction, float)) and isinstance(b, (Fraction, float)):
-        return None if _numeq(a, b, tol) else "%s: %r != %r" % (path, a, b)
+        return None if _numeq(a, b, tol and mode == "tol") else "%s: %r != %r" % (path, a, b)
     if type(a) is not type(b):
         return "%s: %r vs %r" % (path, a, b)
     if isinstance(a, dict):
         if set(a) != set(b):
             return "%s: keys %s vs %s" % (path, sorted(a), sorted(b))
         for k in sorted(a):
-            d = diff_doc(a[k], b[k], path + "/" + k, tol or (k in TOL_KEYS))
+            d = diff_doc(a[k], b[k], path + "/" + k, tol or (k in TOL_KEYS), mode)
             if d:
                 return d
         return None
@@ -93,7 +100,7 @@ def diff_doc(a, b, path="", tol=False):
             a = sorted(a, key=_bagkey)
             b = sorted(b, key=_bagkey)
         for i, (x, y) in enumerate(zip(a, b)):
-            d = diff_doc(x, y, "%s[%d]" % (path, i), tol)
+            d = diff_doc(x, y, "%s[%d]" % (path, i), tol, mode)
             if d:
                 return d
         return None
@@ -116,6 +123,8 @@ class PyExec:
     def __init__(self):
         self.pool = {}
         self.snaps = {}
+        self.same_object = {}
+        self.last_fill_raised = False
 
     def state(self, h):
         return canon_doc(self.pool[h].toJson())
@@ -129,8 +138,10 @@ class PyExec:
         if k == "fill":
             try:
                 P[op[1]].fill(op[2], op[3])
+                self.last_fill_raised = False
                 return "ok"
             except Exception as e:  # noqa: BLE001
+                self.last_fill_raised = True
                 return classify(e)
         if k == "fills":
             out = []
@@ -148,14 +159,23 @@ class PyExec:
                 return "ok"
             except Exception:  # noqa: BLE001
                 return "raise:container"
-        if k == "iadd":
+        if k in ("iadd", "iadd_pyonly"):
             try:
                 a = P[op[1]]
+                before = id(a)
                 a += P[op[2]]
                 P[op[1]] = a
+                self.same_object[op[1]] = (id(a) == before)
                 return "ok"
             except Exception:  # noqa: BLE001
                 return "raise:container"
+        if k == "hash":
+            try:
+                hash(P[op[1]])
+                repr(P[op[1]])
+                return "ok"
+            except Exception as e:  # noqa: BLE001
+                return "raise:" + type(e).__name__
         if k == "mul":
             P[op[1]] = P[op[2]] * op[3]
             return "ok"
@@ -183,7 +203,13 @@ class PyExec:
             old = (hgutil.relativeTolerance, hgutil.absoluteTolerance)
             hgutil.relativeTolerance, hgutil.absoluteTolerance = float(op[3]), float(op[4])
             try:
-                return bool(P[op[1]] == P[op[2]])
+                r = P[op[1]] == P[op[2]]
+                n = P[op[1]] != P[op[2]]
+                if bool(r) == bool(n):
+                    return "violation: != is not the negation of == (%r, %r)" % (r, n)
+                return bool(r)
+            except Exception as e:  # noqa: BLE001
+                return "raise:" + type(e).__name__
             finally:
                 hgutil.relativeTolerance, hgutil.absoluteTolerance = old
         if k == "drop":
@@ -192,6 +218,18 @@ class PyExec:
         if k == "snap":
             self.snaps[op[1]] = self.state(op[2])
             return "ok"
+        if k == "checksnap":
+            # the state of op[2] must equal the snapshot op[1] *now*
+            d = diff_doc(self.snaps[op[1]], self.state(op[2]))
+            return ("violation: %s: %s changed since snapshot %s: %s" % (op[3], op[2], op[1], d)) if d else "ok"
+        if k == "checksnap_if_raised":
+            if not self.last_fill_raised:
+                return "ok"
+            d = diff_doc(self.snaps[op[1]], self.state(op[2]))
+            return ("violation: %s: %s" % (op[3], d)) if d else "ok"
+        if k == "checkeq":
+            d = diff_doc(self.state(op[1]), self.state(op[2]))
+            return ("violation: %s: %s and %s differ: %s" % (op[3], op[1], op[2], d)) if d else "ok"
         raise ValueError(op)
 
 
@@ -270,7 +308,7 @@ def expand(op, py):
     return op
 
 
-PY_ONLY_OPS = {"snap", "pickle", "jsonstr", "jsonfile"}
+PY_ONLY_OPS = {"snap", "checksnap", "checksnap_if_raised", "checkeq", "pickle", "hash", "iadd_pyonly"}
 
 
 def run_history(ops, model, check_states=True, py=None, replies=None, model_ops=None):
@@ -281,6 +319,7 @@ def run_history(ops, model, check_states=True, py=None, replies=None, model_ops=
     py = py or PyExec()
     model.d.send(["$reset"])
     live = []
+    first = None
     for i, op in enumerate(ops):
         op = expand(op, py)
         try:
@@ -289,12 +328,15 @@ def run_history(ops, model, check_states=True, py=None, replies=None, model_ops=
             rp = "crash:" + type(e).__name__ + ":" + str(e)[:200]
         if replies is not None:
             replies.append(rp)
-        if op[0] in PY_ONLY_OPS:
+        if op[0] in PY_ONLY_OPS or first is not None:
+            # after the first divergence the implementation keeps running (the oracle needs the
+            # whole history); the model is no longer consulted
             continue
         rm = model.apply(op)
         d = same_reply(op, rp, rm)
         if d:
-            return {"index": i, "op": _brief(op), "what": d, "impl": _s(rp), "model": _s(rm)}, py
+            first = {"index": i, "op": _brief(op), "what": d, "impl": _s(rp), "model": _s(rm)}
+            continue
         k = op[0]
         if k in ("new", "add", "mul", "rmul", "zero", "copy", "load") and rp == "ok":
             if op[1] not in live:
@@ -306,11 +348,13 @@ def run_history(ops, model, check_states=True, py=None, replies=None, model_ops=
                 try:
                     sp = py.state(h)
                 except Exception as e:  # noqa: BLE001
-                    return {"index": i, "op": _brief(op), "what": "toJson of %s raised %s: %s" % (h, type(e).__name__, e)}, py
+                    first = {"index": i, "op": _brief(op), "what": "toJson of %s raised %s: %s" % (h, type(e).__name__, e)}
+                    break
                 d = diff_doc(sp, model.state(h))
                 if d:
-                    return {"index": i, "op": _brief(op), "what": "state of %s after op: %s" % (h, d)}, py
-    return None, py
+                    first = {"index": i, "op": _brief(op), "what": "state of %s after op: %s" % (h, d)}
+                    break
+    return first, py
 
 
 def _brief(op):
